@@ -74,6 +74,10 @@ def gen_cases(tier, seed):
         yield {'family': 'tuple_selector', 'op': 'load_tuple_selector', 'idx': 8500 + i, 'seed': seed}
     # a data package whose resource is a JSON file (as dump_to_path(format='json') writes it) is read as it is delivered
     yield {'family': 'json_package', 'op': 'load_json_package', 'idx': 8600, 'seed': seed}
+    # file sources whose look-ahead is a matter of BYTES held in memory before the first row is delivered: a text file in a
+    # legacy encoding (larger than the 1 MiB the encoding probe samples), a GeoJSON file
+    for i, kind_ in enumerate(['legacy_encoding_csv', 'geojson']):
+        yield {'family': 'file_source_memory', 'op': 'load_' + kind_, 'kind': kind_, 'idx': 8700 + i, 'seed': seed}
     # a step that finishes its resource on its own (dumper, printer, stream) in front of a concatenate of several resources
     for i, obs in enumerate(['dump_to_path', 'printer', 'stream', 'validate']):
         yield {'family': 'observer_then_concatenate', 'op': 'concatenate_after_' + obs, 'obs': obs, 'idx': 9000 + i, 'seed': seed}
@@ -105,6 +109,8 @@ def run_case(case):
     sizes = [2000, 20000] + ([200000] if os.environ.get('VERIF_TIER') == 'thorough' and case['idx'] % 10 == 0 else [])
     if case['family'] == 'csv_file':
         return run_csv(case, rng, d, counters, cov, viol, sizes)
+    if case['family'] == 'file_source_memory':
+        return run_file_memory(case, rng, d, counters, cov, viol)
     if case['family'] in ('limit_rows', 'observer_then_concatenate', 'tuple_selector', 'json_package'):
         return run_special(case, rng, d, counters, cov, viol, sizes)
     nsrc = rng.choice([1, 1, 2, 3]) if case['family'] == 'composition' else rng.choice([1, 2])
@@ -205,6 +211,100 @@ def run_case(case):
         return dict(nontrivial=False, violations=[], cov=cov, counters=counters,
                     inconclusive='pipeline failed: %s: %s; %s' % (type(c).__name__, str(c)[:200], gen.render(prog, 400)))
     return judge(case, prog, specs, sizes, res, counters, cov, viol)
+
+
+class _Enough(Exception):
+    pass
+
+
+def run_file_memory(case, rng, d, counters, cov, viol):
+    """Peak of traced memory between opening the source and the delivery of its first row, for two file sizes."""
+    import json as json_
+    import tracemalloc
+    kind = case['kind']
+    sizes = [25000, 100000] if kind == 'legacy_encoding_csv' else [1500, 6000]
+    peaks, fsizes, positions = [], [], []
+    for N in [50] + sizes:          # (the first, tiny file only warms up imports and caches: not measured)
+        if kind == 'legacy_encoding_csv':
+            path = 'legacy_%d.csv' % N
+            words = ['\u6771\u4eac\u90fd\u65b0\u5bbf\u533a\u897f\u65b0\u5bbf', '\u5927\u962a\u5e9c\u5927\u962a\u5e02\u5317\u533a\u6885\u7530',
+                     '\u3053\u308c\u306f\u65e5\u672c\u8a9e\u306e\u30c6\u30ad\u30b9\u30c8\u3067\u3059',
+                     '\u79c1\u306f\u5b66\u751f\u3067\u3059\u3002\u3088\u308d\u3057\u304f\u304a\u9858\u3044\u3057\u307e\u3059']
+            with open(path, 'w', encoding='shift_jis', newline='') as f:
+                f.write('id,address,note\n')
+                for i in range(N):
+                    f.write('%d,"%s","%s"\n' % (BASE + i, words[i % 4], words[(i + 1) % 4]))
+        else:
+            path = 'features_%d.geojson' % N
+            with open(path, 'w') as f:
+                f.write('{"type": "FeatureCollection", "features": [\n')
+                for i in range(N):
+                    f.write(json_.dumps({'type': 'Feature', 'properties': {'id': BASE + i, 's': 'v%d' % (i % 5)},
+                                         'geometry': {'type': 'Point', 'coordinates': [i % 90, i % 45]}}))
+                    f.write(',\n' if i < N - 1 else '\n')
+                f.write(']}\n')
+        fsizes.append(os.path.getsize(path))
+        delivered = [0]
+        rpath = os.path.realpath(path)
+        position = [None]
+
+        def first_row(rows, rpath=rpath, position=position):
+            for row in rows:
+                delivered[0] += 1
+                # where the reader of the file stands when the first row arrives (no descriptor open = read to its end)
+                for fd in os.listdir('/proc/self/fd'):
+                    try:
+                        if os.path.realpath('/proc/self/fd/' + fd) == rpath:
+                            for ln in open('/proc/self/fdinfo/' + fd):
+                                if ln.startswith('pos:'):
+                                    position[0] = max(position[0] or 0, int(ln.split()[1]))
+                    except OSError:
+                        pass
+                raise _Enough()
+            return
+            yield
+        first_row.__defaults__ = None
+        first_row = (lambda f, a, b: (lambda rows: f(rows, a, b)))(first_row, rpath, position)
+        if kind == 'geojson' and N != 50:
+            positions.append(position)
+        if kind != 'geojson':
+            tracemalloc.start()
+        try:
+            with boot.quiet():
+                d.Flow(d.load(path), first_row).process()
+        except Exception as e:
+            if not isinstance(getattr(e, 'cause', e), _Enough):
+                if kind != 'geojson':
+                    tracemalloc.stop()
+                return dict(nontrivial=False, violations=[], cov=cov, counters=counters,
+                            inconclusive='load of the %s file failed: %s' % (kind, str(getattr(e, 'cause', e))[:200]))
+        if N != 50:
+            peaks.append(tracemalloc.get_traced_memory()[1] if kind != 'geojson' else 0)
+        else:
+            fsizes.pop()
+        if kind != 'geojson':
+            tracemalloc.stop()
+        counters['delivery_events'] += delivered[0]
+        counters['pull_events'] += 1
+        os.remove(path)
+    label = case['op']
+    for N, pk in zip(sizes, peaks):
+        cov['step_lookahead']['%s@%d/peak_kib_before_first_row' % (label, N)] = pk // 1024
+    prog = {'family': 'file_source_memory', 'kind': kind, 'file_bytes': fsizes, 'peak_bytes_before_first_row': peaks}
+    # bounded look-ahead: what is held before the first row does not grow with the file (here: by less than half of what the
+    # file grew by)
+    if kind == 'geojson':
+        read = [fs if pos_[0] is None else pos_[0] for pos_, fs in zip(positions, fsizes)]
+        prog['bytes_read_when_first_row_arrives'] = read
+        if read[1] > fsizes[1] // 2:
+            viol.append({'kind': 'lookahead_grows', 'mech': 'grows/%s' % label, 'program': prog,
+                         'msg': 'when the first row is delivered %d of the %d bytes of the file have been read (%d of %d for the '
+                         'smaller file); %r' % (read[1], fsizes[1], read[0], fsizes[0], prog)})
+    elif fsizes[1] - fsizes[0] > 200 * 1024 and peaks[1] - peaks[0] > (fsizes[1] - fsizes[0]) // 2:
+        viol.append({'kind': 'lookahead_grows', 'mech': 'grows/%s' % label, 'program': prog,
+                     'msg': 'memory held before the first row is delivered grows with the file: %d KiB for a %d KiB file, %d KiB '
+                     'for a %d KiB file; %r' % (peaks[0] // 1024, fsizes[0] // 1024, peaks[1] // 1024, fsizes[1] // 1024, prog)})
+    return dict(nontrivial=True, violations=viol, cov=cov, counters=counters, sample=prog)
 
 
 def run_special(case, rng, d, counters, cov, viol, sizes):
